@@ -133,11 +133,24 @@ def main(prop, tier='quick', seed=0, replay=None):
         write_evidence(mod, ctx, t0, [], audit, extraction, forbidden, 0, broken, note='model build failed')
         return 2
 
+    # hand-modelled functions whose source differs from what the model was validated against: not a verdict, but the
+    # correspondence is all that ties them, so it is run on further input streams
+    import modelled
+    ctx.modelled = modelled.status(os.environ.get('XYZ_REPO', '/repo'), prop)
+    changed = sorted(k for k, v in ctx.modelled.items() if v != 'unchanged')
+    if changed:
+        ctx.notes.append('hand-modelled functions changed since the model was validated: ' + ', '.join(changed)[:600])
+
     # 4-6 correspondence + oracle
     if hasattr(mod, 'setup'): mod.setup(ctx)
     try:
         corpus = load_corpus(prop)
         cases = corpus + list(mod.cases(ctx))
+        if changed and not getattr(mod, 'EXHAUSTIVE', {}).get(tier, False):
+            for extra in (1, 2):
+                ctx.rng = random.Random(seed * 1000003 + extra)
+                cases += list(mod.cases(ctx))
+            ctx.notes.append('correspondence run on 3 input streams instead of 1')
         recs = evaluate(mod, ctx, cases)
         hx = [r for r in recs if isinstance(r['real'], dict) and 'harness_exc' in r['real']]
         if hx:
@@ -256,6 +269,7 @@ def write_evidence(mod, ctx, t0, recs, audit, extraction, forbidden, violations,
             'not_proved_in_full': getattr(mod, 'PARTIAL', {}),
             'broken': broken, 'forbidden_constructs': forbidden,
             'extraction': extraction,
+            'modelled_by_hand': getattr(ctx, 'modelled', {}),
             'evaluations': len(recs),
             'distinct_nontrivial': nontrivial,
             'rule': mod.RULE,
